@@ -144,6 +144,28 @@ fn run_w<const B: usize, const L: usize>(scn: &Obj) -> Value {
                 });
             }
         }
+        "from_f64" => {
+            let f = f64::from_bits(j_to_u64(&scn["p"]));
+            ev.rec("try", || to_res(Uint::<B, L>::try_from(f)));
+            ev.rec("wr", || Uint::<B, L>::wrapping_from(f));
+            ev.rec("sat", || Uint::<B, L>::saturating_from(f));
+            ev.rec("from", || Uint::<B, L>::from(f));
+        }
+        "from_f32" => {
+            let f = f32::from_bits(j_to_u64(&scn["p"]) as u32);
+            ev.rec("try", || to_res(Uint::<B, L>::try_from(f)));
+            ev.rec("wr", || Uint::<B, L>::wrapping_from(f));
+            ev.rec("sat", || Uint::<B, L>::saturating_from(f));
+            ev.rec("from", || Uint::<B, L>::from(f));
+        }
+        "to_f" => {
+            // an ascending run of values; the floats are logged as bit patterns
+            let xs: Vec<Uint<B, L>> = scn["xs"].as_array().unwrap().iter().map(j_to_uint).collect();
+            ev.rec("f64v", || xs.iter().map(|x| Bn(f64::from(*x).to_bits() as u128)).collect::<Vec<_>>());
+            ev.rec("f64r", || xs.iter().map(|x| Bn(f64::from(x).to_bits() as u128)).collect::<Vec<_>>());
+            ev.rec("f32v", || xs.iter().map(|x| Bn(f32::from(*x).to_bits() as u128)).collect::<Vec<_>>());
+            ev.rec("f32r", || xs.iter().map(|x| Bn(f32::from(x).to_bits() as u128)).collect::<Vec<_>>());
+        }
         "consts" => {
             ev.rec("zero", || Uint::<B, L>::ZERO);
             ev.rec("one", || Uint::<B, L>::ONE);
